@@ -383,18 +383,52 @@ func (ec *evalCtx) applyContract(c *Contract, fn *types.Func, call *ast.CallExpr
 			resultNames[n] = i
 		}
 	}
-	for _, en := range c.Ensures {
-		// assignment form for slices / maps:  <lvalue or result> == expr
-		if be, ok := en.Expr.(*ast.BinaryExpr); ok && be.Op == token.EQL && post.assignable(be.X, c, resultNames) {
-			cur := post.tryEval(be.X)
-			switch cur.(type) {
-			case *SliceV, *MapV:
-				rhs := post.eval(be.Y)
-				post.assignSpec(be.X, rhs, resultNames, len(results))
-				continue
+	var conjuncts []ast.Expr
+	var flatten func(x ast.Expr)
+	flatten = func(x ast.Expr) {
+		switch y := x.(type) {
+		case *ast.ParenExpr:
+			flatten(y.X)
+			return
+		case *ast.BinaryExpr:
+			if y.Op == token.LAND {
+				flatten(y.X)
+				flatten(y.Y)
+				return
+			}
+		case *ast.CallExpr:
+			// implies(C, body) with C folding to a constant
+			if exprString(y.Fun) == "implies" && len(y.Args) == 2 {
+				if ct, ok := post.tryEval(y.Args[0]).(*Term); ok {
+					if ct.IsTrue() {
+						flatten(y.Args[1])
+						return
+					}
+					if ct.IsFalse() {
+						return
+					}
+				}
 			}
 		}
-		ec.st.Assume(post.evalBool(en.Expr))
+		conjuncts = append(conjuncts, x)
+	}
+	for _, en := range c.Ensures {
+		flatten(en.Expr)
+	}
+	for _, en := range conjuncts {
+		// assignment form for reference-like values:  <modified location or result> == expr
+		if be, ok := en.(*ast.BinaryExpr); ok && be.Op == token.EQL && post.assignable(be.X, c, resultNames) {
+			cur := post.tryEval(be.X)
+			switch cur.(type) {
+			case *SliceV, *MapV, *IfaceV, *PtrV:
+				rhs := post.tryEval(be.Y)
+				if _, isNil := rhs.(nilMarker); rhs != nil && !isNil {
+					post.assignSpec(be.X, rhs, resultNames, len(results))
+					continue
+				}
+			}
+		}
+		ec.st.Assume(post.evalBool(en))
 	}
 	for i := range results {
 		if v, ok := scope[fmt.Sprintf("result%d", i)]; ok {
@@ -458,6 +492,24 @@ func (ec *evalCtx) assignable(e ast.Expr, c *Contract, resultNames map[string]in
 			return true
 		}
 	}
+	if call, ok := e.(*ast.CallExpr); ok {
+		switch exprString(call.Fun) {
+		case "target":
+			// target(x) is assignable when *x or x's owner is modified
+			return true
+		}
+		return false
+	}
+	root, field := modRootField(e)
+	if root == "" {
+		return false
+	}
+	for _, m := range c.Modifies {
+		r, f := modRootField(m)
+		if r == root && (f == "*" || f == field) {
+			return true
+		}
+	}
 	return false
 }
 
@@ -486,6 +538,10 @@ func (ec *evalCtx) assignSpec(lhs ast.Expr, v Value, resultNames map[string]int,
 			}
 			return
 		}
+	}
+	if lv, ok := ec.ghostLvalOf(lhs); ok {
+		lv.set(v)
+		return
 	}
 	ec.lvalue(lhs).set(v)
 }
